@@ -217,6 +217,10 @@ func generateControllerSpec(openapi *openapi3.T, config *definitions.OpenAPIGene
 	for _, route := range def.Routes {
 
 		if swagtool.IsHiddenAsset(&route.Hiding) {
+			// A hidden route is still served and its security enforced - it may only name declared schemes
+			if err := generateOperationSecurity(&openapi3.Operation{}, config, route); err != nil {
+				return err
+			}
 			logger.Info(fmt.Sprintf("Skipping hidden route: %v %s (%s)", route.HttpVerb, route.RestMetadata.Path, route.OperationId))
 			continue
 		}
